@@ -2,5 +2,5 @@ SPECIFICATION Spec
 CONSTANTS
   Alphabet <- MCAlphabet
   MaxLen = 3
-INVARIANTS Tiling Maximal PositionsSane Exclusive NoStuck PosInRange
+INVARIANTS Tiling Maximal PositionsSane Exclusive NoStuck PosInRange NonTokenConfined
 CHECK_DEADLOCK FALSE
